@@ -117,7 +117,7 @@ impl LangInterpreter for German {
                 to_block = Excludable::TENS;
                 b.put(b"6")
             }
-            "sieben" | "siebte" if b.is_free(2) => {
+            "sieben" | "siebte" | "siebente" if b.is_free(2) => {
                 to_block = Excludable::TENS;
                 b.put(b"7")
             }
